@@ -178,6 +178,9 @@ func normalizeOrderInsensitive(value string) string {
 var (
 	maxQValue = unique.Make(1.0)
 	minQValue = unique.Make(0.001)
+	// zeroQValue marks a member that is explicitly not acceptable (kept only
+	// next to a wildcard, see normalizeOrderInsensitiveWithQValues).
+	zeroQValue = unique.Make(0.0)
 )
 
 // normalizeOrderInsensitiveWithQValues handles headers with quality values.
@@ -193,6 +196,10 @@ func normalizeOrderInsensitiveWithQValues(value string) string {
 	}
 	parts := slices.Collect(TrimmedCSVSeq(value))
 	qualityParts := make([]qualityValue, 0, len(parts))
+	// A member with q=0 means "not acceptable". Without a wildcard in the list
+	// that equals leaving the member out; next to a wildcard it does not
+	// ("*, gzip;q=0" excludes gzip, "*" does not), so there it is kept.
+	hasWildcard := strings.Contains(value, "*")
 outer:
 	for i := range parts {
 		part := parts[i]
@@ -206,6 +213,10 @@ outer:
 				// q is case insensitive
 				case len(param) > 2 && strings.EqualFold(param[:2], "q="):
 					qRaw := param[2:]
+					if qVal, err := strconv.ParseFloat(qRaw, 64); hasWildcard && err == nil && qVal == 0 {
+						q = zeroQValue
+						continue
+					}
 					if qRaw == "0" || qRaw == "0.0" {
 						continue outer // skip this part, as it has q=0
 					}
